@@ -430,6 +430,8 @@ def factors(e):
 def ext_hook(rd, e, st, ctx):
     if e.get('k') == 'Call' and 'between0And2Pi' in (e.get('fn') or ''):
         return [(sp.Function('mod2pi')(*vals), s2) for (vals, s2) in rd.evs(e['args'], st, ctx)]
+    if e.get('k') == 'Call' and 'numeric_limits<' in (e.get('fn') or '') and (e.get('fn') or '').endswith('::epsilon') and not e.get('args'):
+        return [(sp.Rational(1, 2 ** 23) if 'numeric_limits<float>' in e['fn'] else sp.Rational(1, 2 ** 52), st)]
     return mat.hook(rd, e, st, ctx)
 
 
@@ -569,7 +571,62 @@ def check_planar(fx, R, S):
     if ok:
         A, B = v.args[0].args
         ok = sp.simplify(A * sp.cos(a) - B * sp.sin(a)) == 0 and sp.simplify(B / sp.cos(a)).is_positive
-    R.check(bool(ok), 'R4', 'rotation2DToEulerAngle<%s>' % S, 'angle of the 2x2 rotation is read as %s' % v, 'atan2(2 sin, 2 cos) = angle', fx.rel(fe['loc']), 'E-ALG')
+    if ok:
+        R.holds('R4', 'rotation2DToEulerAngle<%s>' % S, 'atan2(2 sin, 2 cos) = angle', fx.rel(fe['loc']), 'E-ALG')
+        return
+    # another form, or several paths: every path is evaluated on witness angles that satisfy its conditions - exact quarter and half turns included (a matrix built from the angle pi has an exact zero
+    # sine term in exact arithmetic, as -I has in floating point); the angle must come back modulo 2 pi
+    two_pi = 2 * sp.pi
+    unmod = lambda e_: e_.replace(lambda x: isinstance(x, sp.core.function.AppliedUndef) and len(x.args) == 1 and str(x.func) == 'mod2pi', lambda x: x.args[0] - two_pi * sp.floor(x.args[0] / two_pi))
+    wit = [sp.Integer(0), sp.Rational(3, 10), sp.Integer(2), sp.pi, -sp.pi, sp.pi / 2, 3 * sp.pi / 2, sp.Integer(4), sp.Integer(6), -sp.Rational(1, 2), sp.pi - sp.Rational(1, 10 ** 6)]
+    verdict, n_ok = None, 0
+    for st_ in sts:
+        desc = ' && '.join(('' if c[2] else '!') + '(' + c[0] + ')' for c in st_.cond)
+        if not isinstance(st_.ret, sp.Basic):
+            verdict = verdict or ('undecided', 'a path returns something that is not readable (%s)' % type(st_.ret).__name__)
+            continue
+        for aw in wit:
+            taken = True
+            for c in st_.cond:
+                if not isinstance(c[1], sp.Basic):
+                    taken = None
+                    break
+                cv = sp.simplify(unmod(c[1]).subs(a, aw))
+                if cv not in (sp.true, sp.false):
+                    try:
+                        cv = cv.func(sp.N(cv.lhs, 40), sp.N(cv.rhs, 40)) if hasattr(cv, 'lhs') else cv
+                    except Exception:
+                        pass
+                if cv not in (sp.true, sp.false):
+                    taken = None
+                    break
+                if bool(cv) != c[2]:
+                    taken = False
+                    break
+            if taken is None:
+                verdict = verdict or ('undecided', 'the condition of the path [%s] is not evaluable on the witness angles' % desc)
+                break
+            if not taken:
+                continue
+            try:
+                got = sp.N(unmod(st_.ret).subs(a, aw), 30)
+                d = sp.N(sp.Abs(sp.sin((got - aw) / 2)), 30)
+            except Exception:
+                verdict = verdict or ('undecided', 'the returned angle is not evaluable on the witness angles')
+                continue
+            if not d.is_real or d > sp.Float('1e-9'):
+                verdict = ('violated', 'for the rotation by %s rad (the matrix of the library\'s own builder)%s the angle read back is %s: not the angle modulo 2 pi, so the planar round trip does not return the '
+                           'rotation' % (aw, ' the path [%s] is taken and' % desc if desc else '', sp.N(got, 8)))
+                break
+            n_ok += 1
+        if verdict and verdict[0] == 'violated':
+            break
+    if verdict and verdict[0] == 'violated':
+        R.violated('R4', 'rotation2DToEulerAngle:value', verdict[1] + ' [%s]' % S, fx.rel(fe['loc']), 'E-ORD')
+    elif verdict:
+        R.undecided('R4', 'rotation2DToEulerAngle<%s>' % S, verdict[1])
+    else:
+        R.undecided('R4', 'rotation2DToEulerAngle<%s>' % S, 'not the enumerated form atan2(2 sin, 2 cos); the angle comes back on %d witness evaluations, which is not a proof' % n_ok)
 
 
 def norm_hook(rd, e, st, ctx):
@@ -588,13 +645,27 @@ def check_normalisers(fx, R, S):
         if f is None:
             R.undecided('R5', '%s<%s>' % (name, S), 'instantiation missing')
             continue
+        cands = [(f, S)]
+        if S == 'double':
+            # overload resolution prefers a non-template overload with an exactly matching parameter: such overloads ARE the normaliser for their argument type (and for every
+            # instantiation of the extractors that calls it with that type), so they are judged like the template
+            for g in fx.functions.values():
+                if g.get('body') is not None and g['q'] == NS + name and not g.get('cls') and len(g.get('params', [])) == 1:
+                    cands.append((g, '%s overload' % (g['params'][0].get('t') or {}).get('s', '?')))
+        for (f, S_) in cands:
+            judge_normaliser(fx, R, f, name, S_, adv)
+
+
+def judge_normaliser(fx, R, f, name, S, adv):
+    two_pi = 2 * sp.pi
+    for _once in (0,):
         R.used(f)
         try:
             paths = sym.Reader(fx, call_hook=norm_hook).run(f)
         except sym.Unsupported as u:
             R.undecided('R5', '%s<%s>' % (name, S), str(u))
             continue
-        val = sp.Symbol('arg:val', real=True)
+        val = sp.Symbol('arg:' + f['params'][0]['name'], real=True)
         loc = fx.rel(f['loc'])
         for n, st in enumerate(paths):
             r = st.ret
@@ -606,7 +677,7 @@ def check_normalisers(fx, R, S):
             fm = [a for a in r.atoms(sp.core.function.AppliedUndef) if str(a.func) == 'fmod']
             if fm:
                 f0 = fm[0]
-                okmod = f0.args[0] == val and sp.simplify(f0.args[1] - two_pi) == 0
+                okmod = f0.args[0] == val and (sp.simplify(f0.args[1] - two_pi) == 0 or (f0.args[1].is_number and abs(sp.N(f0.args[1] - two_pi, 30)) < sp.Float('1e-6')))      # 2 pi, or its rounding to the scalar type
                 base = sp.Interval.open(-two_pi, two_pi)
                 var = sp.Symbol('f', real=True)
                 rr = r.subs(f0, var)
@@ -622,6 +693,9 @@ def check_normalisers(fx, R, S):
                 conds = [(c[1], c[2]) for c in st.cond if isinstance(c[1], sp.Basic)]
             shift = sp.simplify(rr - var)
             k = sp.simplify(shift / two_pi)
+            if not k.is_Integer and k.is_number and abs(sp.N(k - sp.Integer(round(float(k))), 30)) < sp.Float('1e-6'):
+                k = sp.Integer(round(float(k)))            # a multiple of 2 pi rounded to the scalar type
+                shift = k * two_pi
             if not k.is_Integer:
                 R.violated('R5', '%s<%s>:congruence' % (name, S), 'on the path [%s] the result differs from the input by %s, not by a multiple of 2 pi' % (desc, shift), loc, 'E-INT')
                 continue
